@@ -45,7 +45,7 @@ type SyncResult struct {
 	GaveUp       string
 	Aligned      bool  // correct replicas holding >= 2T/3+1 were in round RGst at GST (they are phase-aligned by construction)
 	Group        []int // those replicas
-	CapRounds    int   // first-principles cap: by round RGst+CapRounds the smallest phase timeout exceeds a whole round of GST
+	CapRounds    int   // first-principles cap: by round RGst+CapRounds the smallest phase timeout exceeds the worst timer misalignment (the round lengths from the lowest round at GST up to the front round)
 }
 
 type event struct {
@@ -192,7 +192,13 @@ func (s *Sim) RunSynchronous(o SyncOpts) *SyncResult {
 		for p := Election; p <= Commit; p++ {
 			sum += b.WaitTime(p, 0)
 		}
-		x := float64(sum)*float64(2*maxRound+3)/float64(s.MinTimeout()) + 1
+		// the worst timer misalignment a correct replica can carry: one that cannot fast-forward (the replicas ahead of it hold
+		// less than 1/3) walks from the lowest round at GST up to the front round, one full round length after the other
+		var units float64
+		for r := minRound; r <= maxRound+1; r++ {
+			units += float64(2*r + 1)
+		}
+		x := float64(sum)*units/float64(s.MinTimeout()) + 1
 		res.CapRounds = int(x/2) + 1 - int(maxRound)
 		if res.CapRounds < 1 {
 			res.CapRounds = 1
